@@ -15,10 +15,14 @@ Strs(n) == UNION {[1..k -> Sigma] : k \in 0..n}
 NEStrs(n) == UNION {[1..k -> Sigma] : k \in 1..n}
 ParamLocs == {"path", "query", "header"}
 
+\* values that interact with the POSITIONAL member names VALUE_<index> given to values that do not start with a letter
+EnumMenu == { <<"V","A","L","U","E","_","1">>, <<"v","a","l","u","e"," ","1">>, <<"V","a","l","u","e","-","2">>, <<"v","a","l","u","e","_","0">>,
+              <<"1","a">>, <<"2">>, <<"-">>, <<>>, <<"a">>, <<"v","a","l","u","e">> }
 Universe ==
   CASE Mode = "single" -> Strs(MaxLen)
     [] Mode = "attr"   -> {q \in [1..SetSize -> Strs(MaxLen)] : \A a, b \in 1..SetSize : a < b => q[a] # q[b]}
     [] Mode = "enum"   -> {q \in [1..SetSize -> Strs(MaxLen)] : \A a, b \in 1..SetSize : a < b => q[a] # q[b]}
+    [] Mode = "enummenu" -> {q \in [1..SetSize -> EnumMenu] : \A a, b \in 1..SetSize : a < b => q[a] # q[b]}
     [] Mode = "class"  -> {q \in [1..SetSize -> NEStrs(MaxLen)] : \A a, b \in 1..SetSize : a < b => q[a] # q[b]}
     [] Mode = "ops"    -> {q \in [1..SetSize -> NEStrs(MaxLen)] : \A a, b \in 1..SetSize : a < b => q[a] # q[b]}
     [] Mode = "allof"  -> [par : {q \in [1..SetSize -> Strs(MaxLen)] : \A a, b \in 1..SetSize : a < b => q[a] # q[b]},
@@ -62,8 +66,8 @@ EmitAttr == (Mode = "attr" /\ done /\ (EmitJson \/ ~AttrOk)) =>
 \* ------------------------------------------------------------------ enum member keys (N1 + N2)
 EnumOut == EnumRun(inp, 1, {}, <<>>)
 EnumOk == EnumOut.err \/ (Len(EnumOut.out) = Len(inp) /\ \A k \in 1..Len(EnumOut.out) : ValidIdent(EnumOut.out[k].key))
-N2Enum == (Mode = "enum" /\ done) => EnumOk
-EmitEnum == (Mode = "enum" /\ done /\ (EmitJson \/ ~EnumOk)) =>
+N2Enum == (Mode \in {"enum", "enummenu"} /\ done) => EnumOk
+EmitEnum == (Mode \in {"enum", "enummenu"} /\ done /\ (EmitJson \/ ~EnumOk)) =>
    PrintT(ToJson([i |-> inp, err |-> EnumOut.err, keys |-> [k \in 1..Len(EnumOut.out) |-> EnumOut.out[k].key],
                   vals |-> [k \in 1..Len(EnumOut.out) |-> EnumOut.out[k].val], ok |-> EnumOk]))
 
